@@ -8,6 +8,7 @@ def run(ctx):
     cli.rule_encoder_selection(ctx)
     cli.rule_errors_not_dropped(ctx)
     cli.rule_single_exit(ctx)
+    cli.rule_usage_errors(ctx)
     cli.rule_no_catch_unwind(ctx)
     cli.rule_stdout_writers(ctx)
     cli.rule_answer_after_solver(ctx)
